@@ -30,6 +30,7 @@ TypeCat == [a |-> <<>>, b |-> <<>>, h |-> <<>>,
             f |-> <<"rule-not-admitted", "rule-not-admitted">>,        \* two rules a format type does not admit, on one node
             i |-> <<"rule-not-admitted", "rule-not-admitted", "rule-not-admitted">>,  \* the same on a property of an object type
             j |-> <<"inherits-defective-or-missing">>,                 \* an heir of i (allOf): i's properties are copied into it
+            k |-> <<"inherits-defective-or-missing">>,                 \* an heir of c and p (allOf list of two): their unnamed types come with it
             p |-> <<"missing-in-or">>]                                 \* like the first defect of o, in a type of its own
 TypeIds == DOMAIN TypeCat
 \* root mentions no type / @a / every registered name / has two defective choices of its own / is an heir of @i (the
@@ -49,7 +50,7 @@ Register(t) == /\ ~done /\ t \notin Range(order) /\ Len(order) < MaxTypes
 
 Broken(S) == {t \in S : TypeCat[t] # <<>>}
 \* total order on names used by the sorted walk (internal types of the root come first)
-Rank == [a |-> 1, b |-> 2, c |-> 3, f |-> 4, g |-> 5, h |-> 6, i |-> 7, j |-> 8, m |-> 9, o |-> 10, p |-> 11, r |-> 12, v |-> 13, w |-> 14, x |-> 15]
+Rank == [a |-> 1, b |-> 2, c |-> 3, f |-> 4, g |-> 5, h |-> 6, i |-> 7, j |-> 8, k |-> 9, m |-> 10, o |-> 11, p |-> 12, r |-> 13, v |-> 14, w |-> 15, x |-> 16]
 Least(S) == CHOOSE t \in S : \A u \in S : Rank[t] <= Rank[u]
 Place(t, i) == <<t, i>>
 
